@@ -19,7 +19,7 @@ func init() {
 		ID:    "C09",
 		Level: "model_checking",
 		Rule: "product: configuration (4 pause-flag states x attester set {as attested, rotated away, rotated back}, reached by real transactions after the originals were emitted) x original " +
-			"{own user message, someone else's, foreign-domain with sender=submitter, bad attestation, genuine own deposit, someone else's deposit, user-sent burn-message imitation naming the submitter, a replacement of a replacement (message and deposit)} " +
+			"{own user message, someone else's, foreign-domain with sender=submitter, bad attestation, genuine own deposit, someone else's deposit, user-sent burn-message imitation naming the submitter, a replacement of a replacement (message and deposit), an own message claiming version 1} " +
 			"x {replace-message, replace-deposit} x new body / mint recipient / caller in {zero32, nonzero32, empty, 31, 33, 64, 96 bytes, oversized body; thorough: also a single 0xFF byte at each of the 32 offsets and 15 more body lengths up to the limit} x 4 submitters (the sender, another user, and two shorter accounts whose address is a prefix of the sender's; the latter with a reduced shape set); success only under the stated conditions, " +
 			"replacement reference-decoded and compared with the original field by field, raw store/ledger/counter diff must be empty; distinct_nontrivial = distinct (original kind, transaction, condition vector, outcome)",
 		Assumptions: []string{"success ONLY-IF the stated conditions; the canonical well-formed case must succeed so the check is not vacuous; other accepted-by-conditions shapes (e.g. empty new caller) are EITHER"},
@@ -91,6 +91,7 @@ func c09Run(r *Run, burnPaused, sendPaused bool, attCfg string) {
 	repl2 := sentOf(do(MkReplaceDeposit(UserA.Str, ownDep, Attest(ownDep, signers), distinct32(0x2A), distinct32(0x2B), "own deposit")))
 	foreign := RefMsg(0, DomEth, Noble, 3, pad32(UserA.Addr), distinct32(0x21), Zero32, []byte("from elsewhere"))
 	foreignDep := RefMsg(0, DomEth, 1, 3, PaddedModule, RemoteMessenger1, Zero32, RefBurn(0, RemoteToken0, distinct32(0x24), big.NewInt(5), pad32(UserA.Addr)))
+	ownV1 := RefMsg(1, Noble, DomEth, 1<<40, pad32(UserA.Addr), distinct32(0x21), Zero32, []byte("version one"))
 	origs = []orig{
 		{"own user message", ownMsg, Attest(ownMsg, signers)},
 		{"someone else's user message", otherMsg, Attest(otherMsg, signers)},
@@ -105,6 +106,7 @@ func c09Run(r *Run, burnPaused, sendPaused bool, attCfg string) {
 		{"replacement of own message", repl1, Attest(repl1, signers)},
 		{"replacement of own deposit", repl2, Attest(repl2, signers)},
 		{"truncated own message (115 bytes)", ownMsg[:115], Attest(ownMsg[:115], signers)},
+		{"own message claiming version 1", ownV1, Attest(ownV1, signers)},
 	}
 	var disabled []string
 	switch attCfg {
